@@ -97,6 +97,9 @@ pub struct Stats {
     pub samples: Vec<J>,
     pub log: Vec<(u64, String)>,
     pub phase_runs: BTreeMap<String, u64>,
+    /// wall-clock of the slowest single run (generation + execution), for the watchdog margin; not part of any digest
+    pub slowest_run_us: u64,
+    pub slowest_run_desc: String,
 }
 
 impl Stats {
@@ -133,6 +136,8 @@ impl Stats {
             samples: Vec::new(),
             log: Vec::new(),
             phase_runs: BTreeMap::new(),
+            slowest_run_us: 0,
+            slowest_run_desc: String::new(),
         }
     }
 
@@ -188,6 +193,10 @@ impl Stats {
         self.found.extend(o.found);
         self.samples.extend(o.samples);
         self.log.extend(o.log);
+        if o.slowest_run_us > self.slowest_run_us {
+            self.slowest_run_us = o.slowest_run_us;
+            self.slowest_run_desc = o.slowest_run_desc;
+        }
     }
 }
 
@@ -297,8 +306,10 @@ struct Slot {
 }
 
 pub struct HangReport {
-    pub phase: usize,
+    pub phase: String,
     pub index: u64,
+    pub run_seed: u64,
+    pub trace: Trace,
 }
 
 /// Run all phases. Returns merged stats (violations included, not yet minimised).
@@ -317,7 +328,7 @@ pub fn run_phases(ctx: &Arc<Ctx>, phases: Vec<Phase>, cfg: &RunCfg, own_prop: &s
                 .collect(),
         );
         let done = Arc::new(AtomicBool::new(false));
-        let hang_found: Arc<Mutex<Option<u64>>> = Arc::new(Mutex::new(None));
+        let hang_found: Arc<Mutex<Option<HangReport>>> = Arc::new(Mutex::new(None));
         let phase_start = Instant::now();
         let capped = Arc::new(AtomicBool::new(false));
 
@@ -355,9 +366,15 @@ pub fn run_phases(ctx: &Arc<Ctx>, phases: Vec<Phase>, cfg: &RunCfg, own_prop: &s
                     }
                     slots[wi].started_ms.store(t0.elapsed().as_millis() as u64, Ordering::Relaxed);
                     slots[wi].current.store(i + 1, Ordering::Release);
+                    let t_run = Instant::now();
                     let (rs, trace) = phase.source.trace(&ctx, i);
                     let o = execute(&ctx, &trace, &opts);
                     slots[wi].current.store(0, Ordering::Release);
+                    let us = t_run.elapsed().as_micros() as u64;
+                    if us > st.slowest_run_us {
+                        st.slowest_run_us = us;
+                        st.slowest_run_desc = format!("{} run {} ({})", pname, i, o.size.map(|s| SIZES[s].name).unwrap_or("-"));
+                    }
                     record(&mut st, &pname, i, rs, &trace, &o, &own_prop, keep_log, max_found);
                     if stop_on_violation && o.violations.iter().any(|v| v.prop == own_prop) {
                         stop_chunk.fetch_min(chunk, Ordering::Relaxed);
@@ -367,23 +384,54 @@ pub fn run_phases(ctx: &Arc<Ctx>, phases: Vec<Phase>, cfg: &RunCfg, own_prop: &s
             }));
         }
 
-        // watchdog (the only real clock in the harness; it can only abort, never influence a choice)
+        // watchdog (the only real clock in the harness; it can only abort, never influence a choice).
+        // A run that exceeds the limit is re-executed once in isolation by the watchdog itself; only if
+        // that also exceeds the limit is it a hang. A transient stall (descheduled worker on a loaded
+        // machine) is recorded and otherwise ignored.
+        let stalls = Arc::new(AtomicU64::new(0));
         let wd = {
             let slots = slots.clone();
             let done = done.clone();
             let hang_found = hang_found.clone();
             let hang_ms = cfg.hang_ms;
+            let ctx = ctx.clone();
+            let phases = phases.clone();
+            let stalls = stalls.clone();
             std::thread::spawn(move || {
+                let mut cleared: Vec<u64> = Vec::new();
                 while !done.load(Ordering::Relaxed) {
                     std::thread::sleep(Duration::from_millis(200));
                     let now = t0.elapsed().as_millis() as u64;
                     for s in slots.iter() {
                         let cur = s.current.load(Ordering::Acquire);
-                        if cur != 0 {
+                        if cur != 0 && !cleared.contains(&cur) {
                             let st = s.started_ms.load(Ordering::Relaxed);
                             if now.saturating_sub(st) > hang_ms && s.current.load(Ordering::Acquire) == cur {
-                                *hang_found.lock().unwrap() = Some(cur - 1);
-                                return;
+                                let idx = cur - 1;
+                                let (rs, trace) = phases[pi].source.trace(&ctx, idx);
+                                let keep = trace.clone();
+                                let ctx2 = ctx.clone();
+                                let (tx, rx) = std::sync::mpsc::channel();
+                                std::thread::spawn(move || {
+                                    let o = execute(&ctx2, &trace, &exec_opts_for(&trace.prop));
+                                    let _ = tx.send(o.violations.len());
+                                });
+                                match rx.recv_timeout(Duration::from_millis(hang_ms)) {
+                                    Ok(_) => {
+                                        // finished in isolation: the worker was merely starved
+                                        cleared.push(cur);
+                                        stalls.fetch_add(1, Ordering::Relaxed);
+                                    }
+                                    Err(_) => {
+                                        *hang_found.lock().unwrap() = Some(HangReport {
+                                            phase: phases[pi].source.name(),
+                                            index: idx,
+                                            run_seed: rs,
+                                            trace: keep,
+                                        });
+                                        return;
+                                    }
+                                }
                             }
                         }
                     }
@@ -415,15 +463,19 @@ pub fn run_phases(ctx: &Arc<Ctx>, phases: Vec<Phase>, cfg: &RunCfg, own_prop: &s
         }
         done.store(true, Ordering::Relaxed);
         let _ = wd.join();
-        let hung = *hang_found.lock().unwrap();
+        let hung = hang_found.lock().unwrap().take();
         for r in results {
             total.merge(r);
         }
-        if let Some(idx) = hung {
-            hang = Some(HangReport { phase: pi, index: idx });
+        if let Some(h) = hung {
+            hang = Some(h);
             break;
         }
         // a violation of the property under check ends the batch after the phase
+        let n_stalls = stalls.load(Ordering::Relaxed);
+        if n_stalls > 0 {
+            *total.other_events.entry("transient_worker_stall_cleared_by_isolated_rerun".to_string()).or_insert(0) += n_stalls;
+        }
         if capped.load(Ordering::Relaxed) {
             *total.other_events.entry(format!("wall_cap_reached_in_phase_{}", phase.source.name())).or_insert(0) += 1;
         }
